@@ -315,10 +315,8 @@ Examples:
     # create function to replace "_" with original variables
     def restore(variables, mystring):
         if list_or_tuple_or_ndarray(variables):
-            vars = get_variables(mystring,'_')
-            indices = [int(v.strip('_')) for v in vars]
-            for i in sorted(range(len(vars)), key=lambda i: -indices[i]):
-                mystring = mystring.replace(vars[i],variables[indices[i]])
+            import re # restore all markers in a single pass (names are not rescanned)
+            mystring = re.sub(r'(?<![A-Za-z0-9_])_([0-9]+)', lambda m: variables[int(m.group(1))], mystring)
         return mystring
 
     # default is _locals with sympy imported
@@ -506,10 +504,8 @@ Examples:
     # create function to replace "_" with original variables
     def restore(variables, mystring):
         if list_or_tuple_or_ndarray(variables):
-            vars = get_variables(mystring,'_')
-            indices = [int(v.strip('_')) for v in vars]
-            for i in sorted(range(len(vars)), key=lambda i: -indices[i]):
-                mystring = mystring.replace(vars[i],variables[indices[i]])
+            import re # restore all markers in a single pass (names are not rescanned)
+            mystring = re.sub(r'(?<![A-Za-z0-9_])_([0-9]+)', lambda m: variables[int(m.group(1))], mystring)
         return mystring
 
     # default is _locals with sympy imported
@@ -789,10 +785,8 @@ Examples:
     # create function to replace "_" with original variables
     def restore(variables, mystring):
         if list_or_tuple_or_ndarray(variables):
-            vars = get_variables(mystring,'_')
-            indices = [int(v.strip('_')) for v in vars]
-            for i in sorted(range(len(vars)), key=lambda i: -indices[i]):
-                mystring = mystring.replace(vars[i],variables[indices[i]])
+            import re # restore all markers in a single pass (names are not rescanned)
+            mystring = re.sub(r'(?<![A-Za-z0-9_])_([0-9]+)', lambda m: variables[int(m.group(1))], mystring)
         return mystring
 
     locals = kwds['locals'] if 'locals' in kwds else None
